@@ -34,6 +34,7 @@ from harness import adjoint as H
 
 LEVEL = "model_checking"
 F64 = torch.float64
+EPS = torch.finfo(torch.float64).eps
 TICK = 0.125
 TOL = 1e-12
 
@@ -387,6 +388,59 @@ def shrink_case(ctx, combo, idx, logqp=False):
     return dict(combo=[ty, noise, method, am], e=es, verdict=verdict)
 
 
+def linmul_case(ctx, method, idx):
+    """Multiplicative linear Ito SDE with element-wise noise, dY_i = a_i Y_i dt + b_i Y_i dW_i, solved and adjoined with
+    the SAME scheme (euler / euler, milstein / milstein): the adjoint variable solves the same linear SDE in reversed
+    time (the two Ito corrections cancel), so each backward step multiplies by the factor the forward step has as its
+    derivative (1 + a h + b dW [+ 1/2 b^2 (dW^2 - h)]) - the adjoint gradient w.r.t. y0 equals backprop through the
+    solver at rounding level for ANY step size (a doubled or missing correction term is an O(h) error per step)."""
+    import torch.nn as nn
+
+    class LinMul(nn.Module):
+        noise_type, sde_type = "diagonal", "ito"
+
+        def __init__(self, a, b):
+            super().__init__()
+            self.a, self.b = nn.Parameter(a), nn.Parameter(b)
+
+        def f(self, t, y):
+            return self.a * y
+
+        def g(self, t, y):
+            return self.b * y
+
+    gen = torch.Generator().manual_seed((ctx.seed * 911 + idx * 37 + 3) % (2 ** 31))
+    d, b, n = 2 + idx % 2, 3, [1, 4, 6][idx % 3]
+    hden = [8, 16, 4][idx % 3]
+    a = H.dyadic_tensor(gen, (d,)) if hasattr(H, "dyadic_tensor") else torch.randn(d, generator=gen, dtype=F64)
+    bb = 0.5 + torch.rand(d, generator=gen, dtype=F64)
+    t0 = [0.0, -2.0, 16.0][idx % 3]
+    ts = torch.tensor([t0 + k / hden for k in range(n + 1)], dtype=F64)
+    y0v = 1.0 + torch.rand(b, d, generator=gen, dtype=F64)
+    w = H.weights_tensor(gen, (n + 1, b, d))
+    outs = []
+    for fn, extra in ((torchsde.sdeint_adjoint, dict(adjoint_method=method)), (torchsde.sdeint, {})):
+        sde = LinMul(a.clone(), bb.clone())
+        y0 = y0v.clone().requires_grad_()
+        bm = torchsde.BrownianInterval(t0=float(ts[0]), t1=float(ts[-1]), size=(b, d), dtype=F64, entropy=ctx.seed * 77 + idx)
+        with H.quiet():
+            ys = fn(sde, y0, ts, bm=bm, method=method, dt=1.0 / hden, **extra)
+        g, = torch.autograd.grad((ys * w).sum(), [y0])
+        outs.append((ys.detach(), g))
+    key = dict(part="linear_multiplicative", sde_type="ito", noise="diagonal", method=method, adjoint_method=method)
+    ctx.case(("linmul", method, idx), sample=dict(key, steps=n, dt=1.0 / hden, t0=t0))
+    scale = float(outs[1][1].abs().max())
+    err = float((outs[0][1] - outs[1][1]).abs().max())
+    if not torch.equal(outs[0][0], outs[1][0]):
+        H.violation_once(ctx, dict(key, clause="forward_equal"), "sdeint_adjoint forward values differ from sdeint")
+    if err > 64 * n * EPS * max(1.0, scale):
+        H.violation_once(ctx, dict(key, clause="discrete_adjoint_linear"),
+                         f"adjoint gradient w.r.t. y0 differs from backprop by {err:.3e} (scale {scale:.3g}, {n} steps of "
+                         f"1/{hden}) on the multiplicative linear SDE, where the {method} adjoint step has exactly the "
+                         f"forward step's derivative as its factor",
+                         replay=dict(linmul=dict(method=method, idx=idx, seed=ctx.seed)))
+
+
 def run(ctx):
     torch.set_num_threads(1)
     drv, acc = run_tlc(ctx)
@@ -471,6 +525,14 @@ def run(ctx):
             H.violation_once(ctx, dict(part="shrink", sde_type=combo[0], noise=combo[1], method=combo[2],
                                        adjoint_method=combo[3], clause="accepted_runs"),
                              f"accepted configuration raised {type(e).__name__}: {str(e)[:200]}")
+    # same-scheme adjoint on the multiplicative linear SDE: exact discrete adjoint, any step size
+    for i in range(6 if ctx.tier == "quick" else 18):
+        for method in ("euler", "milstein"):
+            try:
+                linmul_case(ctx, method, i)
+            except Exception as e:
+                H.violation_once(ctx, dict(part="linear_multiplicative", method=method, clause="accepted_runs"),
+                                 f"accepted configuration raised {type(e).__name__}: {str(e)[:200]}")
     # forward values under adaptive stepping with backward-only options set to something else
     seen_af = set()
     for i, combo in enumerate(pool):
